@@ -191,7 +191,7 @@ func cowRunImpl(c corr.Case) []string {
 			st.cleanup()
 		}
 	}()
-	old := time.Unix(1_600_000_000, 0)
+	old := time.Unix(1_600_000_000, 123_456_789) // not a whole second: a rounded or re-written time stamp shows
 	direct := map[int]bool{}
 	pages := map[int][]string{}
 	handlePath := map[int]string{}
@@ -485,6 +485,17 @@ func cowExhaustive(tier string) []corr.Case {
 					}
 					l = append(l, "open "+h("/d/s"), fmt.Sprintf("h.readdir %d 1", nh+1), fmt.Sprintf("h.readdir %d -1", nh+1), fmt.Sprintf("h.readdir %d -1", nh+1), fmt.Sprintf("h.readdir %d 1", nh+1))
 					cases = append(cases, corr.Case{Lines: l})
+					// Readdir and Readdirnames mixed on ONE handle: they page through one listing with one cursor
+					if n >= 1 {
+						for _, mix := range [][]string{{"h.readdir %d " + fmt.Sprint(n), "h.readdirnames %d -1", "h.readdir %d -1"}, {"h.readdirnames %d " + fmt.Sprint(n), "h.readdir %d 1", "h.readdirnames %d -1"}} {
+							l := append([]string{"case " + st}, setup...)
+							l = append(l, "open "+h("/d/s"))
+							for _, mline := range mix {
+								l = append(l, fmt.Sprintf(mline, nh))
+							}
+							cases = append(cases, corr.Case{Lines: l})
+						}
+					}
 				}
 				// partial modification of the file target keeps its other bytes
 				for _, off := range []int{0, 3, 12, 20} {
